@@ -15,6 +15,7 @@ namespace Drv
 /-- Stateless command tables, tried in order. -/
 def tables : List (String → List String → Option String) := []
   ++ [Drv.table]
+  ++ [Drv.codecsTable]
 
 /-- Stateful groups, selected by a first line `#mode <name>`. -/
 def modes : List Mode := []
